@@ -766,6 +766,9 @@ class Flow:
                 return [(st, Opq(ast.unparse(node)[:40]))]
             if isinstance(recv, Sym) and recv.name == "INPUT":
                 return self.input_method(st, name, args, node)
+            if isinstance(recv, tuple) and recv and recv[0] == "input_slice" and name == "startswith" and len(args) == 1 and isinstance(recv[1], V):
+                # input[pos:].startswith(x)  ==  input.startswith(x, pos)
+                return self.input_method(st, name, [args[0], recv[1]], node)
             if name == "parse" and len(args) == 2 and isinstance(args[0], PathRef) and args[0].path == "state":
                 cid = recv if isinstance(recv, ChildRef) else ChildRef(ast.unparse(node.func.value) if isinstance(node.func, ast.Attribute) else "?", 0)
                 return self.child(st, cid, args[1], args[0])
@@ -798,6 +801,7 @@ class Flow:
 
     def input_method(self, st: St, name: str, args: list, node: ast.Call) -> list[tuple[St, object]]:
         if name == "startswith":
+            args = [a for a in args]
             if len(args) != 2:
                 st.note("POS", f"input.startswith without an explicit position: {ast.unparse(node)}")
                 return [(st.fork(), True), (st.fork(), False)]
